@@ -897,7 +897,8 @@ class Sandbox:
             if key in self._backup_variables:
                 self.data[key] = self._backup_variables[key]
             else:
-                del self.data[key]
+                # (the student's code may have deleted it already)
+                self.data.pop(key, None)
         self._temporary_variables.clear()
 
     def _make_temporary(self, category, name, value, shared=False):
